@@ -156,6 +156,8 @@ PROPS["C16"] = dict(
         # failure is reported even when it depends on the schedule and does not reproduce from the saved case
         rapid("Frames", "TestFrames", 1600, 60000, shards=(8, 16), config_toml=_NET, timeout=dict(quick=600, thorough=3000),
               retry_confirm=4, trust_unconfirmed=r"terminal has \d+ lines|is not the frame of the current state"),
+        rapid("Resizes", "TestResizes", 320, 12000, shards=(8, 16), config_toml=_NET, timeout=dict(quick=600, thorough=3000),
+              retry_confirm=4, trust_unconfirmed=r"is not the frame of the current state|two frames were being emitted"),
     ],
     exhaustive_claim=["GeomEnum"],
     manifest=dict(
